@@ -76,7 +76,6 @@ def showRecord (nt : Nat) (r : Record) : String :=
   let times := s!"{r.beginNs}:{r.durationNs}:" ++ "/".intercalate (r.events.map fun e => toString e.timestamp)
   s!"{hexOfNat r.traceId},{canonId nt r.spanId},{canonId nt r.parentId},{hexOfStr r.name},{showProps r.props},{evs}~{times}"
 
-def sortStrings (l : List String) : List String := (l.toArray.qsort (· < ·)).toList
 
 def showRecords (nt : Nat) (sorted : Bool) (rs : List Record) : String :=
   if rs.isEmpty then "-" else
